@@ -20,7 +20,8 @@ import FlowCal.transform  # noqa
 import FlowCal.plot  # noqa
 
 RES = [5, 256, 1000]
-OVR = {'none': {}, 'T': {'T': 5000.0}, 'M': {'M': 5.0}, 'W': {'W': 0.5}, 'TMW': {'T': 20000.0, 'M': 4.0, 'W': 0.3}}
+OVR = {'none': {}, 'T': {'T': 5000.0}, 'M': {'M': 5.0}, 'W': {'W': 0.5}, 'TMW': {'T': 20000.0, 'M': 4.0, 'W': 0.3},
+       'Tneg': {'T': -5.0}, 'Mzero': {'M': 0.0}, 'Wneg': {'W': -0.1}, 'Wzero': {'W': 0.0}}
 
 
 def world():
@@ -33,7 +34,27 @@ def world():
         raw = FlowCal.io.FCSData(path)
         rfi = FlowCal.transform.to_rfi(raw)
         mef = FlowCal.transform.to_mef(raw, None, [lambda x: 2.5 * x] * 3)
-    return {'raw': raw, 'rfi': rfi, 'mef': mef}
+    fpath = os.path.join(d, 'f.fcs')
+    fev = [[-1.5, -50.0, 0.0], [4.0, 255.0, 999.0], [2.0, 100.5, -3.0], [1.0, 17.0, 333.0], [3.0, 254.0, 1.0]]
+    fcsgen.write_sample(fpath, fev, ['c1', 'c2', 'c3'], RES, datatype='F', pne=['0,0', '0,0', '0,0'])
+    with warnings.catch_warnings():
+        warnings.simplefilter('ignore')
+        fneg = FlowCal.io.FCSData(fpath)
+    return {'raw': raw, 'rfi': rfi, 'mef': mef, 'float-neg': fneg}
+
+
+def expected_params(x, col, src, ovr):
+    """numbers from the sources the specification names (LogicleParams.Sources)"""
+    T = ovr['T'] if src['T'] == 'given' else float(x.range(col)[1])
+    M = ovr['M'] if src['M'] == 'given' else max(4.5, 4.5 / np.log10(262144) * np.log10(T))
+    if src['W'] == 'given':
+        Wd = ovr['W']
+    elif src['W'] == 'zero':
+        Wd = 0.0
+    else:
+        r = float(np.min(np.asarray(x[:, col].view(np.ndarray))))
+        Wd = max(0.0, (M - np.log10(T / abs(r))) / 2)
+    return T, M, Wd
 
 
 def rfrac(q):
@@ -56,7 +77,7 @@ def fp(x):
     return (np.asarray(x.view(np.ndarray)).tobytes(), json.dumps([[float(v) for v in r] for r in x.range()]))
 
 
-def check_edges(x, col, e, p, ovr):
+def check_edges(x, col, e, p, ovr, src=None):
     e = np.asarray(e, dtype=np.float64)
     n = p['n']
     if e.ndim != 1 or len(e) != n + 1:
@@ -76,10 +97,19 @@ def check_edges(x, col, e, p, ovr):
         if not (e[0] <= lo_eff and e[-1] >= hi):
             return 'not-covering'
     else:
-        t = FlowCal.plot._LogicleTransform(data=x, channel=col, **ovr)
+        if src:
+            T, M, Wd = expected_params(x, col, src, ovr)
+            neg = bool(np.any(np.asarray(x[:, col].view(np.ndarray)) < 0))
+            if (src['W'] == 'from-most-negative-event') != (neg and 'W' not in ovr):
+                return 'logicle-W-source'
+            t = FlowCal.plot._LogicleTransform(T=T, M=M, W=Wd)
+        else:
+            t = FlowCal.plot._LogicleTransform(data=x, channel=col, **ovr)
         fr = [rfrac(q) for q in p['fracs']] if p['fracs'] else list(np.linspace(rfrac(p['first']), rfrac(p['last']), n + 1))
         ref = t.transform_non_affine(np.array(fr) * float(t.M))
-        if not np.allclose(e, ref, rtol=1e-9, atol=1e-9 * max(1.0, abs(hi))):
+        # (single-precision samples: the library derives W from a float32 minimum)
+        rt = 5e-6 if x.dtype == np.float32 else 1e-9
+        if not np.allclose(e, ref, rtol=rt, atol=rt * max(1.0, abs(hi))):
             return 'logicle-grid'
         if not ovr and not (e[0] <= lo and e[-1] >= hi):
             return 'not-covering'
@@ -116,7 +146,7 @@ def main(chk, replay=None):
         return
     W = world()
     cfg = ('SPECIFICATION Spec\nINVARIANT EdgesIncreasing\nINVARIANT EdgesCover\nINVARIANT CentredSmall\n'
-           'INVARIANT UnknownScaleRefused\n')
+           'INVARIANT UnknownScaleRefused\nINVARIANT SourcesTotal\n')
     res = tlc.require_ok(tlc.run_tlc('Gen_C19', cfg, dump=True), 'Gen_C19')
     chk.add_tlc(res, 'Gen_C19')
     neg = False
@@ -149,7 +179,7 @@ def main(chk, replay=None):
         else:
             req = f['cols'] if f['t'] != 'none' else [1, 2, 3]
             if exp['scalar']:
-                lab = 'not-an-array' if isinstance(r, list) else check_edges(x, req[0] - 1, r, exp['per'][0], OVR[ov])
+                lab = 'not-an-array' if isinstance(r, list) else check_edges(x, req[0] - 1, r, exp['per'][0], OVR[ov], exp.get('src'))
                 results = [r]
             elif not isinstance(r, list) or len(r) != len(exp['per']):
                 lab = 'list-shape'
@@ -157,7 +187,7 @@ def main(chk, replay=None):
             else:
                 results = r
                 for j, p in enumerate(exp['per']):
-                    lab = check_edges(x, req[j] - 1, r[j], p, OVR[ov])
+                    lab = check_edges(x, req[j] - 1, r[j], p, OVR[ov], exp.get('src'))
                     if lab:
                         lab = 'ch%d/' % req[j] + lab
                         break
